@@ -383,4 +383,13 @@ set_option maxRecDepth 100000 in
 theorem C14_modelled_guards_present : modelledGuards.all (fun g => GenGuards.inventory.contains g) = true := by
   decide +kernel
 
+/-! ### branch skeleton of the transcribed function (regenerated by harness/translate/guards.py) -/
+
+/-- the guards of `Wavefunction.apply` in the order Model/Guards.lean `admitApply` transcribes them (conservation flags first, then the dimension) -/
+def C14_apply_skeletonReviewed : List String := ["if not self._conserve_number or not hamil.conserve_number()", "if self._conserve_number", "raise TypeError", "endif", "if hamil.conserve_number()", "raise TypeError", "endif", "endif", "if isinstance(hamil, sparse_hamiltonian.SparseHamiltonian)", "else", "if self._conserve_spin and (not self._conserve_number)", "else", "endif", "if isinstance(hamil, diagonal_hamiltonian.Diagonal)", "else", "if isinstance(hamil, diagonal_coulomb.DiagonalCoulomb)", "else", "if isinstance(hamil, restricted_hamiltonian.RestrictedHamiltonian)", "else", "endif", "if hamil.dim() != expected", "raise ValueError", "endif", "endif", "endif", "if self._conserve_spin and (not self._conserve_number)", "endif", "endif", "return"]
+
+set_option maxRecDepth 100000 in
+theorem C14_apply_skeleton : (GenGuards.decisionSkeleton.find? (fun e => e.1 == "src/fqe/wavefunction.py" && e.2.1 == "Wavefunction.apply")).map (·.2.2) =
+    some C14_apply_skeletonReviewed := by decide +kernel
+
 end C14
